@@ -39,6 +39,8 @@ if [ "$confirmed" = yes ]; then
   done
   git -C /repo checkout -q -- .
   rm -f /verif/replays/*.json
+  # the evidence files were just rewritten by runs against a broken tree
+  git -C /verif checkout -q -- evidence 2>/dev/null
 fi
 python3 - "$DST" "$ID" "$confirmed" "$suite_ok" "$with_rc" "$without_rc" "$results" "${DEMO_FLAGS:-}" "${PROPS[0]}" <<'PY'
 import json,sys,os
